@@ -297,6 +297,11 @@ def small_quantifier(attrs):
     return any(key in attrs for key in ('a', 'b')), all(key in attrs for key in _KEYS)
 
 
+def table_quantifier(attrs):
+    return any(attrs.get(key) == value for key, value in (('axis', 'Z'), ('standard_name', 'depth'))), \
+        all(attrs.get(key) != value for key, value in {'axis': 'Z', 'positive': 'up'}.items())
+
+
 def subset_quantifier(dims, wanted):
     return all(d in dims for d in wanted), any(d not in dims for d in wanted)
 
@@ -987,6 +992,7 @@ CASES = {
     'local_table': [('f',)],
     'literal_loop': [([],)],
     'starred_map': [([(1, 2), (3, 4)],), ([(5, 6)],)],
+    'table_quantifier': [({'axis': 'Z'},), ({'standard_name': 'depth', 'positive': 'up'},), ({},)],
     'small_quantifier': [({'a': 1},), ({'edge_node': 1, 'edge_face': 2},), ({},)],
     'subset_quantifier': [(('x', 'y'), ['x']), (('x',), ['x', 'y']), ((), [])],
     'quantifier_polarity': [([1, 2], {1, 2}), ([1, 3], {1}), ([], set())],
